@@ -3,7 +3,7 @@
 cd "$(dirname "$0")/.."
 tier=${1:-both}
 bad=0
-for p in C01 C04 C05 C07 C09 C10 C11 C12 C13 C14 C16 C17 C18 C19 C20; do
+for p in C01 C02 C03 C04 C05 C07 C08 C09 C10 C11 C12 C13 C14 C15 C16 C17 C18 C19 C20; do
   for t in quick thorough; do
     if [ "$tier" != both ] && [ "$tier" != "$t" ]; then continue; fi
     out=$(YATA_NO_SELFTEST=1 ./check $p --tier $t 2>&1); rc=$?
